@@ -65,6 +65,10 @@ fn translate_pipeline(pipeline: Vec<Transform>, ctx: &mut Context) -> Result<sql
     let (select, set_ops) =
         pipeline.break_up(|t| matches!(t, Union { .. } | Except { .. } | Intersect { .. }));
 
+    #[cfg(feature = "verif")]
+    crate::sql::verif_hooks::trace_event(serde_json::json!({
+        "event": "select_pipeline_in", "pipeline": select,
+    }));
     let select = translate_select_pipeline(select, ctx)?;
 
     translate_set_ops_pipeline(select, set_ops, ctx)
@@ -109,6 +113,8 @@ fn translate_select_pipeline(
         .into_iter()
         .exactly_one()
         .unwrap();
+    #[cfg(feature = "verif")]
+    let verif_projection = projection.clone();
     let projection = translate_wildcards(&ctx.anchor, projection);
     let mut projection = translate_select_items(projection.0, projection.1, ctx)?;
 
@@ -116,6 +122,10 @@ fn translate_select_pipeline(
     let takes = pipeline.pluck(|t| t.into_take());
     let is_distinct = pipeline.iter().any(|t| matches!(t, SqlTransform::Distinct));
     let distinct_ons = pipeline.pluck(|t| t.into_distinct_on());
+    #[cfg(feature = "verif")]
+    let verif_plucked = serde_json::json!({
+        "order_by": order_by, "takes": takes, "is_distinct": is_distinct, "distinct_ons": distinct_ons,
+    });
     let distinct = if is_distinct {
         Some(sql_ast::Distinct::Distinct)
     } else if !distinct_ons.is_empty() {
@@ -154,6 +164,15 @@ fn translate_select_pipeline(
     let (mut before_agg, mut after_agg) =
         pipeline.break_up(|t| matches!(t, Transform::Aggregate { .. } | Transform::Union { .. }));
 
+    #[cfg(feature = "verif")]
+    let verif_clauses = {
+        let (mut before, mut after) = (before_agg.clone(), after_agg.clone());
+        serde_json::json!({
+            "where": before.pluck(|t| t.into_filter()),
+            "having": after.pluck(|t| t.into_filter()),
+            "group_by": after.pluck(|t| t.into_aggregate()).into_iter().next().map(|(part, _)| part),
+        })
+    };
     // WHERE and HAVING
     let where_ = filter_of_conditions(before_agg.pluck(|t| t.into_filter()), ctx)?;
     let having = filter_of_conditions(after_agg.pluck(|t| t.into_filter()), ctx)?;
@@ -171,6 +190,16 @@ fn translate_select_pipeline(
     let take = range_of_ranges(ranges)?;
     let offset = take.start.map(|s| s - 1).unwrap_or(0);
     let limit = take.end.map(|e| e - offset);
+    #[cfg(feature = "verif")]
+    crate::sql::verif_hooks::trace_event(serde_json::json!({
+        "event": "select_pipeline",
+        "projection": verif_projection,
+        "plucked": verif_plucked,
+        "clauses": verif_clauses,
+        "take": [take.start, take.end],
+        "offset": offset,
+        "limit": limit,
+    }));
 
     let mut offset = if offset == 0 {
         None
